@@ -52,6 +52,12 @@ CHECKS = {
     'C14': (MC[0], MC[1], 'every history of declarations / constructions / collections / swaps / removals '
             '(every subset) up to the completed depth; list model of the order decides accept/refuse',
             'DESIGN.md 2/C14'),
+    'C17': ('fault_enumeration', 'fault enumeration over explicit-state exploration: every rejected call of '
+            'the menu injected in every state of a BFS of valid histories, followed by invariant '
+            'check and differential continuation',
+            'every state x every fault (x forced reordering positions inside the failing call when '
+            'dynamic reordering is on); oracle right after the exception; every continuation must behave '
+            'as from an unfaulted copy; token-position edits of valid formulas', 'DESIGN.md 2/C17'),
     'C18': (EX[0], EX[1], 'all functions, root sets of size 1-2, every view evaluated',
             'DESIGN.md 2/C18'),
 }
